@@ -131,6 +131,9 @@ def symeig(A: LinearOperator, neig: Optional[int] = None,
         if M is not None:
             M.check()
 
+    if isinstance(method, str):
+        method = method.lower()  # method names are case-insensitive
+
     if method == "exacteig":
         return exacteig(A, neig, mode, M)
     else:
